@@ -65,7 +65,7 @@ ROUTES_PINS = ['seismicfile.SeismicFile.open', 'headers.HeaderwordInfo.get_zgy_h
                'conversion_utils.make_header_seismic_file', 'conversion.SeismicFileConverter.write_headers',
                'conversion.SeismicFileConverter.get_blank_header_info', 'conversion.SeismicFileConverter.run', 'read.SgzReader._parse_coordinates']
 
-PROPS = {    'C01': dict(gen_targets=['Producer', 'Utils', 'Reader', 'Routes'], pins=WRITER_PINS + ROUTES_PINS, harness=['writer.py', 'routes.py'],
+PROPS = {    'C01': dict(gen_targets=['Producer', 'Utils', 'Reader', 'Routes', 'Pipeline'], pins=WRITER_PINS + ROUTES_PINS, harness=['writer.py', 'routes.py', 'pipeline.py'],
                 trusted=ROUTES_TRUSTED + ['tools/genx_producer.py + tools/miniast.py (structural, fail-closed extraction of the producers\' arithmetic)',
                          'hand model (coq/Model/Writer.v): numpy slicing clips, np.pad edge = clamp, buffer row a of plane set p = padded row p*bs0+a, zfpy.compress_numpy emits unit codes in C order (validated: harness O3 + byte-exact comparison of every array handed to the compressor)'],
                 assumptions=['FIFO order of the two queues (C16)', 'MinimalInlineReader.read_line(L) returns line L of the SEG-Y (pinned; validated by the reduced-I/O route cases)',
@@ -78,7 +78,7 @@ PROPS = {    'C01': dict(gen_targets=['Producer', 'Utils', 'Reader', 'Routes'], 
                 assumptions=['codec values are abstract: results are provenance grids; bitwise equality follows for any unit-local codec',
                              'Props/C02d.v: coordinates are an abstract type with decidable equality (Z for line numbers); float64 rounding of the sample axis is outside the model and covered by the oracle in coords.py / coordsx.py'],
                 notes=[]),
-    'C14': dict(gen_targets=READER_TARGETS + ['Coords'], pins=READER_PINS + COORD_PINS, harness=['reads.py', 'coords.py', 'coordsx.py'],
+    'C14': dict(gen_targets=READER_TARGETS + ['Coords', 'Cropping'], pins=READER_PINS + COORD_PINS, harness=['reads.py', 'coords.py', 'coordsx.py', 'cropping.py'],
                 trusted=['tools/genx_coords.py (fail-closed whole-body templates of the by-number / by-coordinate entry points)'],
                 assumptions=['Props/C14b.v: an off-axis line number or coordinate is refused before any loader call, for every axis (abstract coordinates with decidable equality); float64 sample axes by the oracles coords.py / coordsx.py']),
     'C07': dict(gen_targets=READER_TARGETS + ['OpenIO', 'Headers', 'Caches', 'Xarray'], pins=READER_PINS + pins_of('C07'),
@@ -88,9 +88,9 @@ PROPS = {    'C01': dict(gen_targets=['Producer', 'Utils', 'Reader', 'Routes'], 
                 assumptions=['I/O traces of model and implementation are compared after coalescing adjacent ranges',
                              'Props/C07c.v: requests are those seen above read_range; the blob backend is covered as "one request per range read with the same (offset, length)" and executed against an in-memory blob stand-in only',
                              'whole-array header paths (load_all_headers=True, irregular files) are outside the 4-bytes-per-array statement, as in the property text (regular file)']),
-    'C03': dict(gen_targets=['Version', 'Header', 'Producer', 'Reader', 'Utils', 'Cropping', 'Reblock', 'Routes', 'Headers', 'Geometry'], allowed_axioms=FLOAT_PRIMS,
+    'C03': dict(gen_targets=['Version', 'Header', 'Producer', 'Reader', 'Utils', 'Cropping', 'Reblock', 'Routes', 'Headers', 'Geometry', 'Pipeline'], allowed_axioms=FLOAT_PRIMS,
                 pins=['conversion_utils.make_header_numpy', 'conversion_utils.make_header_seismic_file'] + pins_of('C10') + pins_of('C12'),
-                harness=['version.py', 'container.py', 'routes.py'],
+                harness=['version.py', 'container.py', 'routes.py', 'pipeline.py'],
                 trusted=['tools/genx_header.py (fail-closed extraction of the size/format fields of make_header and of the footer padding of both write_headers); the bit rate as a fraction rn/rd: exact rational floor agrees with binary64 on these magnitudes (checked by correspondence on every written file)'],
                 assumptions=['string constructor is a hand model of the pinned source text (int() restricted to digit strings)',
                              'compositions of writers: Props/C03a.v proves that conformance of the header is established by the converters and preserved by the cropper and the re-blocker, hence by every finite composition (induction); the container harness additionally runs compositions of length 2 and 3 through a specification-only decoder',
@@ -152,7 +152,7 @@ PROPS = {    'C01': dict(gen_targets=['Producer', 'Utils', 'Reader', 'Routes'], 
                          'tools/genx_config.py (fail-closed translation of define_blockshape*, order check of the run() methods)',
                          'coq/Lib/PyConfig.v: Python numbers as exact rationals with explicit ZeroDivisionError; agreement of exact Q with CPython binary64 checked on every correspondence case'],
                 assumptions=['"raises before creating the output" is the generator AST order check plus the file oracle, not a theorem about conversion.py']),
-    'C06': dict(gen_targets=['Export', 'Reblock', 'Cli'] + READER_TARGETS, pins=pins_of('C06'), harness=['export.py', 'clix.py'],
+    'C06': dict(gen_targets=['Export', 'Reblock', 'Cli', 'Pipeline'] + READER_TARGETS, pins=pins_of('C06'), harness=['export.py', 'clix.py', 'pipeline.py'],
                 trusted=['tools/genx_export.py (fail-closed extraction of convert_to_segy / write_segy / regenerate_trace_header: spec fields, operation order, index expressions, format-code bytes, header overrides)',
                          'hand model of segyio (create, capacity, bulk put, file layout, trace-0 offset on reopen) in coq/Model/Export.v, checked by correspondence'],
                 assumptions=['segyio numerics: IEEE exact, IBM within relative 2^-20: a property of segyio C code, validated on every sample, not proved',
@@ -168,7 +168,7 @@ PROPS = {    'C01': dict(gen_targets=['Producer', 'Utils', 'Reader', 'Routes'], 
                          'hand model coq/Model/Faults.v: backend delivers Full/Short/Fail, slice assignment as splice, each submitted task runs once and its exception is re-raised by result()'],
                 assumptions=['real timing of the 20 worker threads is represented by an arbitrary permutation of atomic slice assignments (GIL)',
                              'two arithmetic equations on the opaque int(.. * rate) terms of the NxNx4 fan-out are checked per file by vm_compute, not proved from well-formedness']),
-    'C18': dict(gen_targets=['Faults', 'Reader'], pins=pins_of('C17'), harness='partial.py',
+    'C18': dict(gen_targets=['Faults', 'Reader'], pins=pins_of('C17'), harness=['partial.py', 'faults.py'],
                 trusted=['tools/genx_faults.py (write order of both converters with patch offsets; every headerbytes slice of read.py with its user)',
                          'hand model coq/Model/Faults.v: write history, crash = prefix with partial last write, header-word table decode'],
                 assumptions=['a crash point is a prefix of the program-order write sequence; OS write-back below Python is not modelled']),
